@@ -29,10 +29,12 @@ const (
 	aSeqSet
 	aNonP2PKH
 	aHugeSmall
+	aDupOfInput
+	aDupInBatch
 	nAnswers
 )
 
-var answerNames = []string{"ErrNoUTXO", "wrapped ErrNoUTXO", "other error", "empty batch", "[small]", "[small,small]", "[exactly deficit]", "[deficit-1]", "[huge]", "[31-byte txid]", "[utxo with SequenceNumber=7]", "[non-P2PKH utxo]", "[huge,small]"}
+var answerNames = []string{"ErrNoUTXO", "wrapped ErrNoUTXO", "other error", "empty batch", "[small]", "[small,small]", "[exactly deficit]", "[deficit-1]", "[huge]", "[31-byte txid]", "[utxo with SequenceNumber=7]", "[non-P2PKH utxo]", "[huge,small]", "[utxo repeating the outpoint of the first input]", "[small, the same outpoint again]"}
 
 var errSupplier = errors.New("supplier failed")
 
@@ -172,6 +174,24 @@ func c12Run(c c12Case) c12Result {
 			u2, i2 := mk(100)
 			ref.Ins = append(ref.Ins, i1, i2)
 			return []*bt.UTXO{u1, u2}, nil
+		case aDupOfInput:
+			// the supplier hands over a UTXO whose outpoint the transaction already spends (its first
+			// input, prior or supplied earlier): it is consumed like any other - the statement says
+			// "every UTXO the supplier returned"; whether to offer it is the supplier's business
+			u, in := mk(100)
+			if len(ref.Ins) > 0 {
+				u.TxID, u.Vout = append([]byte(nil), ref.Ins[0].TxID...), ref.Ins[0].Vout
+				in.TxID, in.Vout = append([]byte(nil), ref.Ins[0].TxID...), ref.Ins[0].Vout
+			}
+			ref.Ins = append(ref.Ins, in)
+			return []*bt.UTXO{u}, nil
+		case aDupInBatch:
+			u1, i1 := mk(100)
+			u2, i2 := mk(101)
+			u2.TxID, u2.Vout = append([]byte(nil), u1.TxID...), u1.Vout
+			i2.TxID, i2.Vout = append([]byte(nil), i1.TxID...), i1.Vout
+			ref.Ins = append(ref.Ins, i1, i2)
+			return []*bt.UTXO{u1, u2}, nil
 		case aBadTxID:
 			u, _ := mk(5000)
 			u.TxID = u.TxID[:31]
@@ -262,7 +282,7 @@ func c12Check(c c12Case) []rep.Finding { return c12Run(c).fs }
 
 func init() {
 	p := register(&Prop{ID: "C12", Level: "model_checking",
-		Rule: "explicit-state exploration of the funding loop through the real Tx.Fund with the supplier as the nondeterministic environment: every supplier history of length <=4 (quick) / <=5 (thorough; one less from the three start states with 250/251/252 prior inputs, where new inputs cross the 252|253 count boundary) over 13 answers {ErrNoUTXO, wrapped ErrNoUTXO, other error, empty batch, [small], [small,small], [exactly the deficit], [deficit-1], [huge], [huge,small], [31-byte txid], [UTXO with a sequence field], [non-P2PKH UTXO]} (exhaustion after the history ends) x 11 starting transactions (no inputs, with a lock time, prior unsigned/signed input, data output, already funded, empty, 250/251/252 prior inputs, two data outputs) x 5 fee quotes (incl. unequal data rate and a rate that is not an exact binary fraction); a reference loop with a big-integer fee model runs in lockstep inside the supplier: a state is (start, quote, inputs so far, current deficit), a transition is one supplier call. Oracle: supplier called only with a deficit and with exactly the current one, success iff covered, inputs = previous ++ batches field for field with final sequence, exhaustion -> ErrInsufficientFunds, supplier error propagated, outputs untouched",
+		Rule: "explicit-state exploration of the funding loop through the real Tx.Fund with the supplier as the nondeterministic environment: every supplier history of length <=4 (quick) / <=5 (thorough; one less from the three start states with 250/251/252 prior inputs, where new inputs cross the 252|253 count boundary) over 15 answers {ErrNoUTXO, wrapped ErrNoUTXO, other error, empty batch, [small], [small,small], [exactly the deficit], [deficit-1], [huge], [huge,small], [31-byte txid], [UTXO with a sequence field], [non-P2PKH UTXO], [UTXO repeating the outpoint of the transaction's first input], [small, the same outpoint again]} (exhaustion after the history ends) x 11 starting transactions (no inputs, with a lock time, prior unsigned/signed input, data output, already funded, empty, 250/251/252 prior inputs, two data outputs) x 5 fee quotes (incl. unequal data rate and a rate that is not an exact binary fraction); a reference loop with a big-integer fee model runs in lockstep inside the supplier: a state is (start, quote, inputs so far, current deficit), a transition is one supplier call. Oracle: supplier called only with a deficit and with exactly the current one, success iff covered, inputs = previous ++ batches field for field with final sequence, exhaustion -> ErrInsufficientFunds, supplier error propagated, outputs untouched",
 	})
 	sp := NewSpace(p, "histories", c12Check)
 	p.Run = func(r *rep.Run, thorough bool) {
